@@ -159,6 +159,28 @@ def step (σ : St) (op obs : List String) : St × List Msg :=
     ({ σ' with prevDump := dmp },
       expectEq "mput.verdict" (if ok then "stored" else "dropped") res ++ expectEq "mput.dump" (modelDump σ') dmp
         ++ m1 ++ msgs ++ pf ++ [.tag "mem:put"])
+  | ["mputb", now, name, items], [ress, delta, dmp] =>
+    -- one Put with several alerts of the name: the same per-alert rule, in batch order
+    let now := toInt! now
+    let (σ1, m1) := advance σ now
+    let its := (items.splitOn ";").filterMap fun it => match it.splitOn "," with | [i, e] => some (toNat! i, toInt! e) | _ => none
+    let rs := ress.splitOn ","
+    let init : St × List Msg × Nat × List String := (σ1, [], 0, [])
+    let (σ', msgs, nDropped, verdicts) := (its.zip rs).foldl (fun (acc : St × List Msg × Nat × List String) p =>
+      let (σa, ms, nd, vs) := acc
+      let ((id, ends), r) := p
+      let stored := r.startsWith "s:"
+      let e := if stored then toInt! (r.drop 2).toString else ends
+      let (σb, ok, m) := doSet σa now name id e stored
+      (σb, ms ++ m, if stored then nd else nd + 1, vs ++ [if ok then "s" else "d"])) init
+    let d := toNat! delta
+    let implV := rs.map fun r => if r.startsWith "s:" then "s" else "d"
+    let pf :=
+      (if d ≠ nDropped then [Msg.propfail "every_refusal_reported" (if d < nDropped then "silent-drop" else "phantom-count")
+          s!"name={name} batch={items} at={now}: {nDropped} alerts not stored, alerts_limited_total +{d}"] else [])
+    ({ σ' with prevDump := dmp },
+      expectEq "mputb.verdicts" (",".intercalate verdicts) (",".intercalate implV) ++ expectEq "mputb.dump" (modelDump σ') dmp
+        ++ m1 ++ msgs ++ pf ++ [.tag "mem:put-batch"])
   | ["wait", now], [dmp] =>
     let (σ', m1) := advance σ (toInt! now)
     ({ σ' with prevDump := dmp }, expectEq "wait.dump" (modelDump σ') dmp ++ m1)
